@@ -11,19 +11,38 @@ variable {ν : Type} [DecidableEq ν]
 /-- the check run on the implementation's assignment implies the property for arbitrary chains -/
 theorem pairsOK_related (t : Nat) (pairs : List (ν × Option ν)) (w : ν → Option Nat)
     (h : pairsOK t pairs w = true) : ∀ a b, Related pairs a b → w a = w b := by
-  sorry
+  intro a b hr
+  induction hr with
+  | pair hm => exact ((pairsOK_mem h hm).2 _ rfl).2
+  | refl a => rfl
+  | symm _ ih => exact ih.symm
+  | trans _ _ ih1 ih2 => exact ih1.trans ih2
 
 /-- every mentioned name gets a worker below the thread count (check form) -/
 theorem pairsOK_mentioned (t : Nat) (pairs : List (ν × Option ν)) (w : ν → Option Nat)
     (h : pairsOK t pairs w = true) : ∀ a, Mentioned pairs a → ∃ x, w a = some x ∧ x < t := by
-  sorry
+  intro a hm
+  obtain ⟨p, hp, ha | ha⟩ := hm
+  · subst ha; exact (pairsOK_mem h hp).1
+  · exact ((pairsOK_mem h hp).2 a ha).1
 
 /-- **C07 (model passes the check)**: for every sequence of pairs and every positive thread count the
 assignment computed by `add`/`build` gives both names of every pair the same worker, and every
 mentioned name a worker `< t`. -/
 theorem C07_pairs (pairs : List (ν × Option ν)) (t : Nat) (ht : 0 < t) :
     pairsOK t pairs ((Dist.new t : Dist ν).addAll pairs).worker = true := by
-  sorry
+  obtain ⟨hI, hT, -, -, hP⟩ := addAll_spec pairs (Dist.new t : Dist ν) (inv_new t)
+  have hT' : ((Dist.new t : Dist ν).addAll pairs).threads = t := hT
+  apply pairsOK_intro
+  intro p hp
+  obtain ⟨ha, hb⟩ := hP p hp
+  refine ⟨⟨_, worker_spec _ hI _ ha, ?_⟩, ?_⟩
+  · rw [hT']; exact Nat.mod_lt _ ht
+  · intro b hpb
+    obtain ⟨_, hbm, hr⟩ := hb b hpb
+    refine ⟨⟨_, worker_spec _ hI _ hbm, ?_⟩, ?_⟩
+    · rw [hT']; exact Nat.mod_lt _ ht
+    · rw [worker_spec _ hI _ ha, worker_spec _ hI _ hbm, hr]
 
 /-- **C07**: names related directly or through a chain are assigned to the same worker. -/
 theorem C07 (pairs : List (ν × Option ν)) (t : Nat) (ht : 0 < t) (a b : ν) (h : Related pairs a b) :
@@ -41,7 +60,19 @@ theorem C07_disjoint (pairs : List (ν × Option ν)) (t : Nat) (ht : 0 < t) (p 
     (hp : p ∈ pairs) (hq : q ∈ pairs)
     (hne : ((Dist.new t : Dist ν).addAll pairs).worker p.1 ≠ ((Dist.new t : Dist ν).addAll pairs).worker q.1) :
     ∀ n, (n = p.1 ∨ p.2 = some n) → ¬ (n = q.1 ∨ q.2 = some n) := by
-  sorry
+  intro n hnp hnq
+  have hok := C07_pairs pairs t ht
+  have e1 : ((Dist.new t : Dist ν).addAll pairs).worker p.1 =
+      ((Dist.new t : Dist ν).addAll pairs).worker n := by
+    rcases hnp with e | e
+    · rw [e]
+    · exact ((pairsOK_mem hok hp).2 n e).2
+  have e2 : ((Dist.new t : Dist ν).addAll pairs).worker q.1 =
+      ((Dist.new t : Dist ν).addAll pairs).worker n := by
+    rcases hnq with e | e
+    · rw [e]
+    · exact ((pairsOK_mem hok hq).2 n e).2
+  exact hne (e1.trans e2.symm)
 
 /-! ### non-vacuity: the sequence that split {A,B,C} before the repair -/
 example : ((Dist.new 2 : Dist Nat).addAll [(0, some 1), (2, some 1), (2, some 1)]).build = [(0, 0), (1, 0), (2, 0)] := by decide
